@@ -45,7 +45,27 @@ type CaseT struct {
 	Race        string   `json:"race_report,omitempty"`
 }
 
-func (c CaseT) key() string { return fmt.Sprintf("%s:%s:%v", c.Scenario, c.Granularity, c.Schedule) }
+func (c CaseT) key() string { return fmt.Sprintf("%s:%s:%s", c.Scenario, c.Granularity, rle(c.Schedule)) }
+
+// rle prints a schedule with runs of equal choices collapsed ("0x140 1 0x3").
+func rle(s []int) string {
+	var parts []string
+	for i := 0; i < len(s); {
+		j := i
+		for j < len(s) && s[j] == s[i] {
+			j++
+		}
+		if j-i > 3 {
+			parts = append(parts, fmt.Sprintf("%dx%d", s[i], j-i))
+		} else {
+			for k := i; k < j; k++ {
+				parts = append(parts, fmt.Sprint(s[k]))
+			}
+		}
+		i = j
+	}
+	return "[" + strings.Join(parts, " ") + "]"
+}
 
 func schedBin() string { return os.Getenv("VERIF_BIN") + ".sched" }
 func raceBin() string  { return os.Getenv("VERIF_BIN") + ".race" }
@@ -132,6 +152,9 @@ func RunSchedules(r *fw.Run, scs []scen.Scenario, cfgs []Config, perJob, total t
 		if j.mode == "deviations" {
 			args = append(args, "-deviations")
 		}
+		if j.mode == "round-robin-deviations" {
+			args = append(args, "-rr")
+		}
 		if len(j.prefix) > 0 {
 			args = append(args, "-prefix", prefixArg(j.prefix))
 		}
@@ -145,7 +168,18 @@ func RunSchedules(r *fw.Run, scs []scen.Scenario, cfgs []Config, perJob, total t
 		var o workerOut
 		if err != nil || json.Unmarshal(bytes.TrimSpace(stdout.Bytes()), &o) != nil {
 			c := CaseT{Scenario: j.sc, Granularity: j.gran, Schedule: j.prefix}
-			r.Violation("worker:"+c.key(), fmt.Sprintf("scheduler worker failed (%v): %s %s", err, stderr.String(), stdout.String()), c)
+			if err != nil && strings.Contains(err.Error(), "signal: killed") {
+				// killed from outside (memory pressure, an operator): no verdict for this subtree
+				r.Cap(fmt.Sprintf("%s/%s %s<=%d: a worker process was killed from outside; its subtree is unexplored", j.sc, j.gran, j.mode, j.bound))
+				return o, false
+			}
+			clip := func(s string) string {
+				if len(s) > 3000 {
+					return s[:3000] + "..."
+				}
+				return s
+			}
+			r.Violation("worker:"+c.key(), fmt.Sprintf("scheduler worker failed (%v): %s %s", err, clip(stderr.String()), clip(stdout.String())), c)
 			return o, false
 		}
 		r.States.Add(o.Executions)
@@ -176,7 +210,7 @@ func RunSchedules(r *fw.Run, scs []scen.Scenario, cfgs []Config, perJob, total t
 		}
 		if o.Violation != "" {
 			c := CaseT{Scenario: j.sc, Granularity: j.gran, Schedule: o.Schedule, Labels: o.Labels}
-			r.Violation(c.key(), fmt.Sprintf("scenario %s (%s granularity), schedule %v: %s", j.sc, j.gran, o.Schedule, o.Violation), c)
+			r.Violation(c.key(), fmt.Sprintf("scenario %s (%s granularity), schedule %s: %s", j.sc, j.gran, rle(o.Schedule), o.Violation), c)
 			return o, false
 		}
 		return o, true
@@ -307,8 +341,15 @@ func RunRace(r *fw.Run, reps int) {
 		Outcomes  map[string]int `json:"outcomes"`
 		Violation string         `json:"violation"`
 		Scenario  string         `json:"scenario"`
+		Stalled   string         `json:"stalled"`
 	}
 	json.Unmarshal(bytes.TrimSpace(stdout.Bytes()), &o)
+	if o.Stalled != "" {
+		// no wall-clock oracle: a free-running execution that does not end is left to the controlled
+		// exploration, which decides deadlocks exactly; here it only ends the sampling pass
+		r.Cap("race pass: " + o.Stalled)
+		err = nil
+	}
 	r.Extra["race_pass"] = map[string]any{"kind": "free-running executions under the Go race detector (sampling, not exhaustive)", "runs": o.Runs, "distinct_outcomes": len(o.Outcomes)}
 	if strings.Contains(stderr.String(), "DATA RACE") {
 		rep := stderr.String()
@@ -371,6 +412,21 @@ func Run(r *fw.Run) {
 	}
 	r.Bounds["big_log_scenarios"] = bigNames
 	RunSchedules(r, scen.Big(), []Config{{Gran: "ops", Mode: "deviations", Bound: r.Pick(0, 1), Only: nil}}, perJob, total)
+	// many goroutines at once (more than any fixed small limit on work in flight): both default schedules
+	// - run each goroutine to completion, and hand over at every scheduling point (round robin) - and
+	// every single deviation from them
+	var wideNames []string
+	for _, s := range scen.Wide() {
+		wideNames = append(wideNames, s.Name)
+	}
+	r.Bounds["wide_scenarios"] = wideNames
+	wcfg := []Config{{Gran: "ops", Mode: "deviations", Bound: 0}, {Gran: "ops", Mode: "round-robin-deviations", Bound: 0}, {Gran: "sync", Mode: "round-robin-deviations", Bound: 0}}
+	if r.Thorough() {
+		wcfg = append(wcfg, Config{Gran: "ops", Mode: "round-robin-deviations", Bound: 1, Only: map[string]bool{"wide-17-lookups": true}})
+	}
+	RunSchedules(r, scen.Wide(), wcfg, perJob, total)
+	// the ordinary scenarios under the round-robin default as well
+	RunSchedules(r, scs, []Config{{Gran: "ops", Mode: "round-robin-deviations", Bound: r.Pick(1, 2)}, {Gran: "sync", Mode: "round-robin-deviations", Bound: r.Pick(0, 1)}}, perJob, total)
 	RunRace(r, r.Pick(60, 400))
 	r.Sample(CaseT{Scenario: "two-keys-growing-log", Granularity: "ops", Schedule: []int{0, 1, 0, 2}})
 }
